@@ -26,7 +26,11 @@ def run(ck):
     for i in range(1200 if ck.tier == "thorough" else 300):
         rate = ck.rng.choice([1, 1, 2, 3]); burst = ck.rng.choice([1, 2, 3, 4])
         progs = []
-        if i % 2 == 0:
+        if i % 8 == 7:
+            # removeKey() racing tryConsume()'s slow path (insert, then a second findAndModify): key z is only ever touched here
+            progs.append("a=" + ",".join(ck.rng.choice(["C1z", "C1z", "C1x"]) for _ in range(ck.rng.randint(1, 3))))
+            progs.append("b=" + ",".join(ck.rng.choice(["Rz", "Rz", "C1x"]) for _ in range(ck.rng.randint(1, 3))))
+        elif i % 2 == 0:
             ops = [ck.rng.choice(["C1x", "C1x", "C2x", "C3x", "S", "S", "Q", "W1", "W2", "W4"]) for _ in range(ck.rng.randint(4, 12))]
             progs.append("a=" + ",".join(ops))
         else:
@@ -44,6 +48,21 @@ def run(ck):
     ck.evaluations += len(execs)
     ck.nontrivial = len({json.dumps(e[1]) for e in execs if any(x.get("ok") is False for x in e[1]) and any(x.get("ok") is True for x in e[1])})
     v = ck.validate(os.path.join(SPECDIR, "BucketTrace.tla"), os.path.join(SPECDIR, "BucketTrace.cfg"), outp, n_exec=len(execs))
+    obs = []
+    for x, e in enumerate(execs):
+        evs = e[1]; b = next((q for q in evs if q.get("e") == "Begin"), None)
+        if not b or b.get("threads") == 1:
+            continue
+        for q in evs:
+            if q.get("e") == "Consume" and q.get("ok") is False and q["n"] <= b["burst"] \
+               and not any(g.get("e") == "Consume" and g.get("k") == q["k"] and g.get("ok") for g in evs) \
+               and any(g.get("e") == "Remove" and g.get("k") == q["k"] for g in evs):
+                obs.append(x); break
+    if obs:
+        ck.note("OBSERVATION O-26a (Obs_RemoveRacesSlowPath): RateLimiterMap::tryConsume refuses although no token of the key was ever granted - "
+                "removeKey() ran between the slow path's insert and its second findAndModify; seen in %d executions, first: %s" % (len(obs), lines[obs[0]]))
+    else:
+        ck.note("observation O-26a (removeKey racing tryConsume's slow path) not reproduced by this run's schedules")
     ck.sample({"kind": "token bucket execution", "case": lines[0], "events": execs[0][1][:10]})
     if not v.accepted:
         x = vf.exec_index_of_line(events, v.maxl)
